@@ -95,8 +95,13 @@ class TimeEvaluator(Evaluator):
             return a
         if tn in ("VARCHAR", "TEXT") and a.kind == "int":
             return SV("sstr", a.null, None, {"parts": [("int", a, None)]})
-        if tn in ("VARCHAR", "TEXT") and a.kind in ("tp", "sstr"):
+        if tn in ("VARCHAR", "TEXT") and a.kind in ("tp", "sstr", "iv"):
             return a
+        if tn in ("VARCHAR", "TEXT") and a.kind == "date":
+            return self.date_sstr(a)
+        if tn in ("VARCHAR", "TEXT") and a.kind == "real":
+            # DOUBLE renders with a fractional part ('2.0'): never the digits-only spelling of a period number
+            return SV("sstr", a.null, None, {"parts": [("real", a, None)]})
         if tn in ("DATE", "TIMESTAMP", "TIMESTAMPNTZ", "TIMESTAMPTZ"):
             if a.kind == "date":
                 return a
@@ -107,10 +112,71 @@ class TimeEvaluator(Evaluator):
         if tn in ("BIGINT", "INTEGER", "INT") and a.kind == "sstr":
             parts = a.fields["parts"]
             if len(parts) == 1 and parts[0][0] == "int":
+                if a.fields.get("empty_if") is not None and sc is not None:
+                    # CAST('' AS INTEGER) is a conversion error
+                    self.ctx.error(z3.And(sc.guard, z3.Not(a.null), a.fields["empty_if"]), "duckdb:cast-empty-string")
                 return SV("int", a.null, parts[0][1].val)
         return super().cast(a, tn, sc, try_, to)
 
     # ------------------------------------------------------------------ structured strings
+    def date_sstr(self, a):
+        """'YYYY-MM-DD' rendering of a date value; keeps the date itself (reading it back is exact)"""
+        y, m, d = self.cal.civil(a.val)
+        parts = [("int", SV("int", FALSE, y), None), ("lit", "-"), ("int", SV("int", FALSE, m), 2), ("lit", "-"), ("int", SV("int", FALSE, d), 2)]
+        return SV("sstr", a.null, None, {"parts": parts, "date": a})
+
+    def x_SplitPart(self, e, sc):
+        a = self.expr(e.this, sc)
+        dl, ix = e.args.get("delimiter"), e.args.get("part_index")
+        if a.kind == "null":
+            return NULL("str")
+        if a.kind != "iv" or not isinstance(dl, exp.Literal) or dl.this != "/" or not isinstance(ix, exp.Literal) or ix.this not in ("1", "2", 1, 2):
+            raise Unsupported("SPLIT_PART shape")
+        d = a.fields["d1" if str(ix.this) == "1" else "d2"]
+        r = self.date_sstr(SV("date", z3.Or(a.null, d.null), d.val))
+        return r
+
+    def x_Length(self, e, sc):
+        a = self.expr(e.this, sc)
+        if a.kind == "tp":
+            # canonical spelling: YYYYA | YYYY-Sn | YYYY-Qn | YYYY-Mnn | YYYY-Wnn | YYYY-Dnnn
+            i = a.fields["ind"].val
+            ln = z3.If(i == z3.StringVal("A"), 5, z3.If(z3.Or(i == z3.StringVal("S"), i == z3.StringVal("Q")), 7, z3.If(i == z3.StringVal("D"), 9, 8)))
+            return SV("int", a.null, ln)
+        return super().x_Length(e, sc)
+
+    def x_Substring(self, e, sc):
+        a = self.expr(e.this, sc)
+        if a.kind != "tp":
+            return super().x_Substring(e, sc)
+        st, ln = e.args.get("start"), e.args.get("length")
+        if not isinstance(st, exp.Literal) or (ln is not None and not isinstance(ln, exp.Literal)):
+            raise Unsupported("SUBSTR(period, symbolic position)")
+        st, ln = int(st.this), (int(ln.this) if ln is not None else None)
+        i = a.fields["ind"].val
+        isA = i == z3.StringVal("A")
+        if (st, ln) == (1, 4):
+            return SV("sstr", a.null, None, {"parts": [("int", a.fields["year"], 4)]})
+        if (st, ln) == (5, 1):
+            return SV("str", a.null, z3.If(isA, z3.StringVal("A"), z3.StringVal("-")), {"upper_invariant": True})
+        if (st, ln) == (6, 1):
+            return SV("str", a.null, z3.If(isA, z3.StringVal(""), i), {"upper_invariant": True})
+        if st == 7 and ln is None:
+            # the period number as spelled (padded to the indicator's width); annual periods have nothing there
+            w = z3.If(z3.Or(i == z3.StringVal("S"), i == z3.StringVal("Q")), 1, z3.If(i == z3.StringVal("D"), 3, 2))
+            return SV("sstr", a.null, None, {"parts": [("int", a.fields["num"], "w")], "empty_if": isA})
+        if st == 6 and ln is None:
+            # only read by the branch for non-normalised spellings ('YYYYDnnn'), which a canonical value never takes: indicator + number,
+            # not an integer (a CAST of it fails)
+            return SV("sstr", a.null, None, {"parts": [("int", a.fields["num"], "w")], "empty_if": TRUE})
+        raise Unsupported("SUBSTR(period, %s, %s)" % (st, ln))
+
+    def x_Upper(self, e, sc):
+        a = self.expr(e.this, sc)
+        if a.kind == "str" and a.fields and a.fields.get("upper_invariant"):
+            return a
+        return self._uf1("upper", a, "str", "str")
+
     def norm(self, v):
         """sstr -> tp where the shape is a canonical period string"""
         if v.kind == "sstr":
@@ -149,7 +215,28 @@ class TimeEvaluator(Evaluator):
         raise Unsupported("LPAD of %s" % a.kind)
 
     def sstr_to_tp(self, v):
-        p = v.fields["parts"]
+        if v.fields.get("date") is not None:
+            # 'YYYY-MM-DD' is normalised to the daily period of its day of year
+            d = v.fields["date"]
+            return tp_sv(self.cal.year(d.val), z3.StringVal("D"), self.cal.doy(d.val), z3.Or(v.null, d.null))
+        p = []
+        for part in v.fields["parts"]:
+            if part[0] == "lit" and p and p[-1][0] == "lit":
+                p[-1] = ("lit", p[-1][1] + part[1])
+            else:
+                p.append(part)
+        q = []
+        for part in p:
+            import re as _re
+            m = _re.fullmatch(r"(-[SQMWD])(\d+)", part[1]) if part[0] == "lit" else None
+            if m:
+                q += [("lit", m.group(1)), ("int", SV("int", FALSE, z3.IntVal(int(m.group(2)))), len(m.group(2)) if len(m.group(2)) > 1 else None)]
+            else:
+                q.append(part)
+        p = q
+        if len(p) == 3 and p[0][0] == "int" and p[1][0] == "lit" and p[2][0] == "real" and len(p[1][1]) == 2 and p[1][1][0] == "-" and p[1][1][1] in WIDTH:
+            # a DOUBLE rendered into the number slot ('2.0'): not a period spelling at all
+            return tp_sv(p[0][1].val, z3.StringVal(p[1][1][1]), z3.IntVal(-1000), v.null)
 
         def num_of(part):
             sv, pad = part[1], part[2]
@@ -173,8 +260,9 @@ class TimeEvaluator(Evaluator):
         return None
 
     def sstr_to_date(self, v, sc):
-        p = v.fields["parts"]
-        # 'YYYY-01-01' shapes used by vtl_doy_to_date are not needed here
+        if v.fields.get("date") is not None:
+            d = v.fields["date"]
+            return SV("date", z3.Or(v.null, d.null), d.val)
         raise Unsupported("CAST(structured string AS DATE)")
 
     def x_TimeToStr(self, e, sc):
@@ -203,6 +291,8 @@ class TimeEvaluator(Evaluator):
                 i += 1
         if buf:
             parts.append(("lit", buf))
+        if f == "%Y-%m-%d":
+            return self.date_sstr(a)
         return SV("sstr", a.null, None, {"parts": parts})
 
     def x_StrToTime(self, e, sc):
@@ -253,6 +343,10 @@ class TimeEvaluator(Evaluator):
 
     # ------------------------------------------------------------------ comparisons on time values
     def cmp(self, op, a, b):
+        if a.kind == "sstr" and b.kind == "sstr" and a.fields.get("date") is not None and b.fields.get("date") is not None and op in ("=", "<>"):
+            # two 'YYYY-MM-DD' renderings are equal exactly when the dates are
+            da, db = a.fields["date"], b.fields["date"]
+            return super().cmp(op, SV("date", z3.Or(a.null, da.null), da.val), SV("date", z3.Or(b.null, db.null), db.val))
         a, b = self.norm(a), self.norm(b)
         if a.kind == "tp" and b.kind == "str" and z3.is_string_value(b.val):
             b = self.lit_tp(b.val.as_string())
@@ -367,6 +461,10 @@ class TimeEvaluator(Evaluator):
 
     def f_isodow(self, args, sc):
         a = self._date(args[0], sc)
+        return SV("int", a.null, cal.weekday(a.val))
+
+    def x_DayOfWeekIso(self, e, sc):
+        a = self._date(e.this, sc)
         return SV("int", a.null, cal.weekday(a.val))
 
     def x_DateDiff(self, e, sc):
